@@ -737,6 +737,12 @@ func (l *lexer) scanOperator(ch rune) (rune, rune) {
 			return ANY_P, l.next()
 		}
 	default:
+		if ch >= pathPrivate {
+			// Not an operator. The parser's token numbers start at
+			// pathPrivate: a rune in that range (U+E000...) must not
+			// be taken for the keyword with the same number.
+			return utf8.RuneError, next
+		}
 		return ch, next
 	}
 
